@@ -68,6 +68,25 @@ where
     pub(crate) fn progress_yielded_counter(&self, num_yielded: usize) -> usize {
         self.yielded_counter.fetch_and_add(num_yielded)
     }
+
+    /// Returns a guard to be kept alive while the wrapped iterator is being used:
+    /// if the wrapped iterator panics, the guard marks the concurrent iterator as completed while unwinding,
+    /// so that the threads waiting for their turn return instead of waiting forever.
+    #[inline(always)]
+    pub(crate) fn complete_on_unwind(&self) -> CompleteOnUnwind<'_> {
+        CompleteOnUnwind(&self.completed)
+    }
+}
+
+/// Guard which sets the completed flag when dropped during a panic.
+pub(crate) struct CompleteOnUnwind<'a>(&'a AtomicBool);
+
+impl Drop for CompleteOnUnwind<'_> {
+    fn drop(&mut self) {
+        if std::thread::panicking() {
+            self.0.store(true, atomic::Ordering::SeqCst);
+        }
+    }
 }
 
 impl<T: Send + Sync, Iter> From<Iter> for ConIterOfIter<T, Iter>
@@ -123,7 +142,9 @@ where
                 // item_idx==yielded_count => it is our job to provide the item
                 Ordering::Equal => {
                     // SAFETY: no other thread has the valid condition to iterate, they are waiting
+                    let guard = self.complete_on_unwind();
                     let next = unsafe { self.mut_iter() }.next();
+                    drop(guard);
                     match next.is_some() {
                         true => {
                             _ = self.yielded_counter.fetch_and_increment();
@@ -150,11 +171,13 @@ where
         self.progress_and_get_begin_idx(n).and_then(|begin_idx| {
             // SAFETY: no other thread has the valid condition to iterate, they are waiting
             let iter = unsafe { self.mut_iter() };
+            let guard = self.complete_on_unwind();
             let buffer = (0..n)
                 .map(|_| iter.next())
                 .take_while(|x| x.is_some())
                 .map(|x| x.expect("is_some is checked"))
                 .collect::<Vec<_>>();
+            drop(guard);
 
             match buffer.len() {
                 0 => {
